@@ -226,6 +226,8 @@ def schema_load_json(lib, I, schema_obj, cls, data, node):
             v = c.fresh(f"fld_{name}", sort_of(t))
             val = I.wrap(v, t)
             for vd in fdecl.validators:  # an accepted value satisfies the validators
+                if getattr(vd, "bad_exc", None) and c.branch(c.fresh("rejected_value_formats_broken_template", BoolS), f"{name}-error-template"):
+                    I.raise_(vd.bad_exc)  # rejecting a value formats the validator's message: not a ValidationError (not collected)
                 if isinstance(vd, LibObj) and vd.kind == "mm_range":
                     if vd.min is not None:
                         c.assume(z3.Or(invalid, v >= vd.min))
